@@ -496,8 +496,9 @@ def judge(ctx, stream, frames, label, pos, rec, mrep):
         else:
             asked_i = 1
         kind, inv = C.classify(fr)
-        impl_view.append({"out": per["out"], "asked": asked_i, "wf": inv if kind == "confirmed" else None})
-        model_view.append({"out": m["out"], "asked": asked_m, "wf": m["wf"]})
+        impl_view.append({"out": per["out"], "asked": asked_i, "wf": inv if kind == "confirmed" else None,
+                          "hd": [ref_hdr(o) for (_d, o) in m["out"]]})
+        model_view.append({"out": m["out"], "asked": asked_m, "wf": m["wf"], "hd": m["hd"]})
         sig = (label, "hdr" if (pos is not None and pos < 6) else "body", m.get("br"))
         ctx.count("model/" + stream, sig)
     last = mrep[len(frames) - 1]
@@ -552,6 +553,20 @@ def reference_oracle(ctx, case, frames, rec, mrep):
         ctx.fail("residue-transaction", case, "leftover after quiescence: %r" % (rec["residue"],), errors=rec["errors"])
     if not rec["terminated"]:
         ctx.fail("nontermination", case, "device still busy after the loop limit")
+
+
+def ref_hdr(octets_hex):
+    """what Device.replyHdr must read off a frame, by the harness' independent decoder: a reply on the
+    local network (plain NPCI) as [type, invoke, segmented, service choice | reason]"""
+    b = bytes.fromhex(octets_hex)
+    if len(b) < 5 or b[0] != 1 or (b[1] & 0xFC):
+        return None
+    h = C.decode_apdu_header(b)
+    if not h or h.get("type") not in C.REPLY_TYPES:
+        return None
+    if h["type"] == 3 and h.get("seg") and len(b) < 7:
+        return None
+    return [h["type"], h["invoke"], bool(h.get("seg")), h["reason"] if h["type"] in (6, 7) else h["service"]]
 
 
 def by_invoke(o):
